@@ -243,7 +243,9 @@ Record obs := {
   o_live : bool                      (* after the frame the server still serves: a request of the bystander that needs the
                                         session table was processed, a new connection got its welcome message, its first
                                         message was answered and it was let go again, and the hub's tables could be read -
-                                        each within a bound (10 s).  Observed directly, like o_alive: false = the process
+                                        each within a bound (10 s; cut short when a new connection is not
+                                        greeted for a second and the hub's lock cannot be taken at any of 100 attempts in the next
+                                        half second).  Observed directly, like o_alive: false = the process
                                         is there but somebody holds a lock of the hub for ever.  When false the other
                                         observations after the bystander's messages could not be made any more. *)
 }.
